@@ -106,6 +106,11 @@ def tensor(vk, cfg):
             A4r = M.ravel(A4)
             vk.ensures_eq("ravel(4th order)/[((i*d+j)*d+k)*d+l]==A[i,j,k,l]", A4r, np.array([A4[i, j, k, l] for i in range(d) for j in range(d) for k in range(d) for l in range(d)], dtype=A.dtype).reshape((d**4,) + tuple(batch)))
             vk.ensures_eq("reshape(ravel(4th order))==A", M.reshape(A4r, (d, d, d, d)), A4)
+            # trailing_axes: how many trailing axes are batch axes (reshape; ravel forwards only the default, see note)
+            b0, b1 = batch
+            flat1 = np.array([A[i, j, y] for i in range(d) for j in range(d) for y in range(b0)], dtype=A.dtype).reshape((d * d * b0, b1))
+            vk.ensures_eq("reshape(flat, (d, d, b0), trailing_axes=1)==A", M.reshape(flat1, (d, d, b0), trailing_axes=1), A)
+            vk.note("observation (no clause of C17 names the helpers): math.ravel(A, trailing_axes=k) raises ValueError for k != 2 -- the argument is not handed on to reshape; the only caller (MaterialStrain) uses the default")
             if vk.sym and d > 1:
                 vk.canary("ravel is column-major", Ar, np.array([A[j, i] for i in range(d) for j in range(d)], dtype=object).reshape((d * d,) + tuple(batch)))
         symspec = (A + ref_einsum(sub("ij->ji", batch), A)) / 2
